@@ -30,6 +30,38 @@ SCAN_LEN = 10
 VMAP_B = 3
 
 
+# environments whose menus contain pairs that differ only in object-valued options (reward function, generator)
+STATIC_ARG_ENVS = ("TSP", "Knapsack", "CVRP", "RubiksCube", "Sudoku", "Connector", "Maze", "GraphColoring", "JobShop")
+
+
+def _sibling_entry(b):
+    """Another menu entry of the same environment class, preferably the reward twin (same sizes, other reward_fn)."""
+    from vf.models import base
+
+    try:
+        m = base.get_model(b)
+    except Exception:  # noqa: BLE001
+        m = None
+    tw = getattr(m, "REWARD_TWINS", None) or {}
+    if b.entry in tw:
+        return tw[b.entry]
+    if b.overrides:
+        return None
+
+    def scalars(env):
+        return {k: v for k, v in vars(env).items() if isinstance(v, (bool, int, float, str))}
+
+    es = [e for e in envs.entries(b.name) if e != b.entry][:10]
+    mine = scalars(b.env)
+    for e in es:    # prefer a configuration that differs in object-valued options only (generator, reward function)
+        try:
+            if scalars(envs.make_env(b.name, e)) == mine:
+                return e
+        except Exception:  # noqa: BLE001
+            continue
+    return es[0] if es else None
+
+
 def snapshot(tree):
     """(host copy of leaves, identities of dataclass field objects) of an argument pytree."""
     import jax
@@ -156,6 +188,38 @@ def run_case(ctx, rig, keys, plans, picks, fail, eager_first):
         VmapWrapper(b.env).reset(jax.random.split(k_i, 2))
         JumanjiToDMEnvWrapper(b.env, key=k_i).reset()
         ctx.count("interference_rounds")
+        # the environment object as a *static* jit argument (the library's own rollout helpers in jumanji/testing do
+        # this): two live environments of one class that differ in their configuration must not share a compiled
+        # program - each call must equal that environment's own reset
+        sib = _sibling_entry(b)
+        if sib is not None and b.name in STATIC_ARG_ENVS:
+            other = envs.bundle(b.name, sib)
+            f_static = jax.jit(lambda env_, k_: env_.reset(k_), static_argnums=0)
+            f_static_step = jax.jit(lambda env_, s_, a_: env_.step(s_, a_), static_argnums=0)
+            try:
+                hash(b.env), hash(other.env)
+            except TypeError:
+                other = None     # unhashable environments cannot be static arguments at all: nothing to compare
+            if other is not None:
+                for tag, bb in (("first", b), ("second", other), ("first again", b)):
+                    got = episodes.host(f_static(bb.env, k_i))
+                    want = episodes.host(bb.reset(k_i))
+                    ctx.evals()
+                    d = treecmp.diff(got, want, exact=False)
+                    if d:
+                        fail("transform.static_arg", "reset through jit with the environment as a static argument differs "
+                             "from that environment's own reset", f"{tag} environment ({bb.entry}; the other one is "
+                             f"{other.entry if bb is b else b.entry}): {d}")
+                    s_own, _ = bb.reset(k_i)
+                    a_gen = bb.env.action_spec.generate_value()
+                    d = treecmp.diff(episodes.host(f_static_step(bb.env, s_own, a_gen)), episodes.host(bb.step(s_own, a_gen)),
+                                     exact=False)
+                    ctx.evals()
+                    if d:
+                        fail("transform.static_arg", "step through jit with the environment as a static argument differs "
+                             "from that environment's own step", f"{tag} environment ({bb.entry}; the other one is "
+                             f"{other.entry if bb is b else b.entry}): {d}")
+                ctx.count("static_arg_pairs")
         # a sibling environment built on the *same generator object* with another time limit (a training and an
         # evaluation environment sharing their instance generator): constructing it must leave the caller's generator,
         # and with it the behaviour of the environment under test, untouched
